@@ -78,6 +78,23 @@ func runOnce(sc *Scenario, prefix []int, policy int) (Exec, mc.Outcome) {
 	return ex, out
 }
 
+// fullCheck = the scenario's own oracle plus the race clause: every MC verdict rests on data-race freedom
+// (sequentially consistent exploration is complete only for race-free executions), so a reported race is a
+// violation of whichever property is being explored.
+func fullCheck(sc *Scenario, ex Exec, out *mc.Outcome) []Viol {
+	vs := ex.Check(out)
+	have := map[string]bool{}
+	for _, v := range vs {
+		have[v.Sig] = true
+	}
+	for _, v := range raceViolations(sc.Prop, out) {
+		if !have[v.Sig] {
+			vs = append(vs, v)
+		}
+	}
+	return vs
+}
+
 func violKey(vs []Viol) string {
 	var s []string
 	for _, v := range vs {
@@ -155,7 +172,7 @@ func (e *explorer) explore(sc *Scenario, policy int) {
 			if len(out.Points) > int(c.R.Extra["max_points"]) {
 				c.R.Extra["max_points"] = int64(len(out.Points))
 			}
-			vs := ex.Check(&out)
+			vs := fullCheck(sc, ex, &out)
 			if len(vs) > 0 && os.Getenv("MC_SCENARIO_STATS") != "" {
 				c.Inc("viol_in:" + sc.Name)
 			}
@@ -175,7 +192,7 @@ func (e *explorer) explore(sc *Scenario, policy int) {
 				}
 				for k := 0; k < reruns; k++ {
 					ex2, out2 := runOnce(sc, choices, policy)
-					if k2 := violKey(ex2.Check(&out2)); k2 != key {
+					if k2 := violKey(fullCheck(sc, ex2, &out2)); k2 != key {
 						fmt.Fprintf(os.Stderr, "NONDETERMINISTIC scenario=%s choices=%v: %q vs %q\n", sc.Name, choices, key, k2)
 						os.Exit(3)
 					}
@@ -392,7 +409,7 @@ func doReplay(path string) int {
 	if o1.Panic != "" {
 		fmt.Println("  panic:", o1.Panic)
 	}
-	v1, v2 := ex1.Check(&o1), ex2.Check(&o2)
+	v1, v2 := fullCheck(sc, ex1, &o1), fullCheck(sc, ex2, &o2)
 	if violKey(v1) != violKey(v2) {
 		fmt.Println("NONDETERMINISTIC verdict")
 		return 3
